@@ -171,7 +171,7 @@ Definition payback_agree (tol : Q) (iCum : list Q) (iPayback : Q) : bool :=
 Definition metrics_agree (tol : Q) (rate_percent : Q) (disc : bool) (capex opex : Q) (life : nat)
            (iTot iCum : list Q) (iNPV iVIR iMOIC : Q) : bool :=
   let sc := sumQ_red (map Qabs iTot) in
-  let n := calculate_npv_red (rate_percent / 100) iTot disc in
+  let n := calculate_npv (rate_percent / 100) iTot disc in   (* Horner form without reduction: numerals grow linearly *)
   close_scale tol sc n iNPV &&
   close_scale tol (sc / Qabs capex) (vir iNPV capex) iVIR &&
   close tol (moic iCum capex opex life) iMOIC.
@@ -179,8 +179,8 @@ Definition metrics_agree (tol : Q) (rate_percent : Q) (disc : bool) (capex opex 
    against the sum of the absolute discounted terms at that rate (near r = -1 the terms are huge) *)
 Definition irr_is_root (tol : Q) (irr_percent : Q) (iTot : list Q) : bool :=
   let r := irr_percent / 100 in
-  let sc := npv_red (Qabs (1 + r) - 1) (map Qabs iTot) in
-  Qle_bool (Qabs (npv_red r iTot)) (tol * sc).
+  let sc := npv (Qabs (1 + r) - 1) (map Qabs iTot) in
+  Qle_bool (Qabs (npv r iTot)) (tol * sc).
 
 (* ---------------------------------------------------------------------------------------------
    Add-ons (EconomicsAddOns.Calculate): the add-on totals enter the project cash flow additively   *)
@@ -228,6 +228,6 @@ Definition addon_agree (tol : Q) (a : addon_in) (life : nat) (rate_percent : Q) 
   all_close_scale tol (scale_of iPCum) (running_red_from 0 iPCF) iPCum &&
   close tol (a_ccap a + a_capex a) iAdjCapex && close tol (a_coam a + a_opex a) iAdjOpex &&
   let ssum := sumQ_red (map Qabs iPCF) in
-  close_scale tol ssum (calculate_npv_red (rate_percent / 100) iPCF disc) iNPV &&
+  close_scale tol ssum (calculate_npv (rate_percent / 100) iPCF disc) iNPV &&
   close_scale tol (ssum / Qabs iAdjCapex) (vir iNPV iAdjCapex) iVIR &&
   close tol (last iPCum 0 / (iAdjCapex + iAdjOpex * natQ life)) iMOIC.
